@@ -142,6 +142,7 @@ def _leaf_grid(pid):
         fails += rt.rt_spline_grid(pid, count=cnt)
         if pid in ("C01", "C02"):
             fails += rt.rt_zoo_B(pid, count=cnt)
+        if pid in ("C01", "C02", "C07"):
             fails += rt.rt_triangular(tier, count=cnt)
         cnt = [sum(cnt)]
         return dict(evaluations=cnt[0], distinct_nontrivial=cnt[0],
